@@ -4,7 +4,9 @@
    AST on this run) and an operation's result depends only on the cells reachable from its arguments
    (frame property), so operations of different threads on disjoint items cannot influence one
    another.  Schedules are explored by the thr / shared streams under ThreadSanitizer. *)
-From CB Require Import Word HHeap HItems HOps HRead_proofs Bridge_inventory.
+From CB Require Import Word HHeap HItems HOps HHist HRef_proofs HCont_proofs HRead_proofs Bridge_inventory HHist_proofs HStepInv_proofs HFrame_proofs.
+From Coq Require Import List.
+Import ListNotations.
 From CBGen Require Import Gen_inventory.
 Local Open Scope N_scope.
 
@@ -31,3 +33,102 @@ Print Assumptions C17_frame.
 Theorem C17_readers_do_not_write : forall a n w r w', serialize_h a n w = Ret r w' ->
   forall b, In (AccW b) (alog w') -> In (AccW b) (alog w).
 Proof. exact C18_no_writes. Qed.
+
+(* ---- footprint and frame of EVERY client operation (theories/HFrame_proofs.v): all 26 operations
+   of HHist.op, the writing ones included (push / set / replace, map_add, add_chunk, tag ops, incref,
+   decref, copy, load, serialize_alloc); no ownership rule is assumed, the statements are about
+   calls that return.  Vocabulary:
+     operands o         = the operand handles of the call (HStepInv_proofs),
+     op_reach s o w b   = b is reachable (reach: item references and data blocks) in w from the item
+                          denoted by some operand handle,
+     footprint s o w b  = op_reach s o w b, or b is at or above the bump pointer of w (allocated by
+                          the call itself),
+     wf w               = nothing lives at or above the bump pointer (true of every world reached from
+                          the empty world: C17_history_frame). ---- *)
+
+(* frame: an existing cell that no operand reaches is exactly what it was - not modified, not
+   released; the bump pointer only advances *)
+Theorem C17_step_frame : forall refuse L s o w s' out w',
+  HCont_proofs.wf w -> step refuse L s o w = Ret (s', out) w' ->
+  next w <= next w' /\
+  forall b, b < next w -> ~ op_reach s o w b -> heap w' b = heap w b.
+Proof. exact HFrame_proofs.C17_step_frame. Qed.
+Print Assumptions C17_step_frame.
+
+Theorem C17_step_frame_live : forall refuse L s o w s' out w' b,
+  HCont_proofs.wf w -> step refuse L s o w = Ret (s', out) w' ->
+  heap w b <> None ->
+  (forall h a, In h (operands o) -> hget s h = Some a -> ~ reach w a b) ->
+  heap w' b = heap w b.
+Proof. exact HFrame_proofs.C17_step_frame_live. Qed.
+Print Assumptions C17_step_frame_live.
+
+(* footprint: every access the call logs (reads and writes of existing cells) and every block it
+   hands to free / realloc lies in its footprint; every address the allocator hands out is fresh *)
+Theorem C17_step_footprint : forall refuse L s o w s' out w',
+  HCont_proofs.wf w -> step refuse L s o w = Ret (s', out) w' ->
+  (exists acc, alog w' = acc ++ alog w /\ Forall (fun x => footprint s o w (acc_addr x)) acc) /\
+  (exists evs, trace w' = evs ++ trace w /\
+     Forall (fun e => (forall p, In p (ev_args e) -> footprint s o w p) /\
+                      (forall p, In p (ev_res e) -> next w <= p)) evs).
+Proof. exact HFrame_proofs.C17_step_footprint. Qed.
+Print Assumptions C17_step_footprint.
+
+(* independence: the outcome of a call depends only on the cells reachable from its operands (and on
+   the bump pointer and the request counter, i.e. on what the allocator will answer): in any other
+   well-formed world that agrees with w on those cells, the same call returns the same handle table
+   and the same observable output and ends in a world that agrees with w' on the whole footprint -
+   the reachable cells and the freshly allocated ones.  All 26 operations (cbor_decref included,
+   although the model derives its fuel from the size of the whole heap). *)
+Theorem C17_step_independent : forall refuse L s o w w2 s' out w',
+  HCont_proofs.wf w -> step refuse L s o w = Ret (s', out) w' ->
+  HCont_proofs.wf w2 -> next w2 = next w -> nreq w2 = nreq w ->
+  (forall b, op_reach s o w b -> heap w2 b = heap w b) ->
+  exists w2', step refuse L s o w2 = Ret (s', out) w2' /\
+    next w2' = next w' /\ nreq w2' = nreq w' /\
+    (forall b, footprint s o w b -> heap w2' b = heap w' b).
+Proof. exact HFrame_proofs.C17_step_independent. Qed.
+Print Assumptions C17_step_independent.
+
+(* two calls on disjoint data: the first leaves the whole operand closure of the second alone *)
+Theorem C17_disjoint_calls : forall refuse L s o1 o2 w s' out w',
+  HCont_proofs.wf w -> step refuse L s o1 w = Ret (s', out) w' ->
+  (forall b, op_reach s o1 w b -> ~ op_reach s o2 w b) ->
+  forall b, op_reach s o2 w b -> b < next w -> heap w' b = heap w b.
+Proof. exact HFrame_proofs.C17_disjoint_calls. Qed.
+Print Assumptions C17_disjoint_calls.
+
+(* at every point of every history from the empty world, legal or not *)
+Theorem C17_history_frame : forall refuse L pre o s outs w s' out w',
+  run_hist refuse L pre HHist_proofs.s0 [] world0 = Ret (s, outs) w ->
+  step refuse L s o w = Ret (s', out) w' ->
+  next w <= next w' /\
+  (forall b, b < next w -> ~ op_reach s o w b -> heap w' b = heap w b) /\
+  (exists acc, alog w' = acc ++ alog w /\ Forall (fun x => footprint s o w (acc_addr x)) acc) /\
+  (exists evs, trace w' = evs ++ trace w /\
+     Forall (fun e => (forall p, In p (ev_args e) -> footprint s o w p) /\
+                      (forall p, In p (ev_res e) -> next w <= p)) evs).
+Proof. exact HFrame_proofs.C17_history_frame. Qed.
+Print Assumptions C17_history_frame.
+
+(* non-vacuity: two independent arrays; cbor_decref of the first one frees its three cells and, by
+   the theorem, leaves the three live cells of the second one alone (HFrame_proofs.ex17_frame) *)
+Example C17_example_frame :
+  match step HRef_proofs.never 8 (fst ex17_sw) (ODecref 0) (snd ex17_sw) with
+  | Ret (s', out) w' =>
+      (forall b, In b [4; 5; 6] -> heap w' b = heap (snd ex17_sw) b) /\
+      heap w' 4 = Some (CItem 1 (NArr true (Some 6) 1 [5])) /\ heap w' 5 = Some (CItem 2 (NInt false I8 9)) /\
+      heap w' 6 = Some (CData 8) /\ heap w' 1 = None /\ heap w' 2 = None /\ heap w' 3 = None /\
+      rev (trace w') = rev (trace (snd ex17_sw)) ++ [EvFree (Some 3); EvFree (Some 2); EvFree (Some 1)]
+  | Fault _ => False
+  end.
+Proof. exact ex17_frame. Qed.
+(* ... and in a world where a cell of the second array has been altered, the same cbor_decref
+   returns the same and agrees on its footprint (theorem applied: ex17_independent; evaluated:) *)
+Example C17_example_independent :
+  match step HRef_proofs.never 8 (fst ex17_sw) (ODecref 0) ex17_w2 with
+  | Ret (s', out) w2' => s' = fst ex17_sw /\ out = OutUnit /\ heap w2' 1 = None /\ heap w2' 2 = None /\
+                         heap w2' 3 = None /\ heap w2' 5 = Some (CItem 9 (NCtrl 20)) /\ next w2' = 7
+  | Fault _ => False
+  end.
+Proof. exact ex17_independent_run. Qed.
